@@ -190,6 +190,7 @@ func c04VeryLong(c *core.Case) {
 	ids = append(ids, ref.ChangeOne(T, H+1, V+1)...)
 	in := ref.Exts(ids)
 	c.Tag("very-long-list")
+	c.Procs()
 	c.NonTrivial()
 	c.KS(T.Ext())
 	c.KI(int64(n), H, V)
